@@ -132,6 +132,8 @@ def install_hooks():
             if op == "put" and item is not None and item.operation_update is not None:
                 u = item.operation_update
                 _log("Ckpt", id=u.operation_id, parent=u.parent_id, action=u.action.value, typ=u.operation_type.value, rejected=False)
+            elif op == "put" and item is not None:
+                _log("CkptEmpty")      # only the timer thread's resubmitter sends an empty ("state refresh") checkpoint
         try:
             self._checkpoint_queue._hook = qhook
         except AttributeError:
@@ -218,7 +220,8 @@ def convert(execution):
         if n == "ExStart":
             if x.get("e") != eid:
                 raise Unsupported("nested executor")
-            cfg = {"script": scripts, "maxc": x["maxc"], "mins": x["mins"], "tolc": x["tolc"], "tolp": x["tolp"]}
+            cfg = {"script": scripts, "maxc": x["maxc"], "mins": x["mins"], "tolc": x["tolc"], "tolp": x["tolp"],
+                   "tfail": bool(execution.sc.get("faults") or execution.sc.get("faults_after_apply"))}
             started = True
             continue
         if not started:
@@ -260,6 +263,8 @@ def convert(execution):
             seen_set = True
         elif n == "Resubmit":
             out.append(ev("Resubmit", i=x["i"]))
+        elif n == "CkptEmpty":
+            out.append(ev("Refresh"))
         elif n == "Build":
             out.append(ev("Build", items=x["items"], reason=x["reason"]))
         elif n == "ExReturn":
